@@ -22,6 +22,7 @@ RULE = (
     "The tree rebuilt from repr() must also generate the same text under both generator configurations; every second AST is "
     "pickled / deep-copied while weak references to all of its nodes are alive. Non-trivial: the AST contains a string/char constant with a quote or backslash, or >= 10 node classes; distinct by hash of "
     "the source."
+    ' File names in coordinates: two thirds of the programs are parsed under one of 17 other file names (drive letters and other colons, blanks, quotes, backslashes, non-ASCII, the empty name), most of them behind a linemarker naming one of 13 further files. '
 )
 ASSUMPTIONS = ["nesting depth of generated ASTs stays below 40 so that eval/pickle recursion limits are never the cause of a failure"]
 
@@ -196,6 +197,10 @@ def nontrivial(ast):
     return hostile_const or len(classes) >= 10
 
 
+FILE_NAMES = ["f.c", "f.c", "", "C:\\proj\\src\\main.c", "a:1", "dir/h.h", "a b.c", "x:y:z.h", "\u00e9t\u00e9.c", "it's.c", 'q"r.c', "<stdin>", "f.c:3:4", "-", "\\", "[1]", "%s%d", "a\tb.c"]
+MARKER_NAMES = ["g.h", "C:/proj/include/cfg.h", "a:1", "http://h/x.h", ":", "f.c:3:4", "<built-in>", "d e/f g.h", "\u00fc.h", "it's.h", "[0]", "{}", ""]
+
+
 def random_shard(arg):
     seed, n = arg
     st = Stats()
@@ -204,12 +209,21 @@ def random_shard(arg):
         g = gen.G(c, quarantine=(), max_nodes=250)
         tu = M.freshen(hostile(gen.gen_unit(g), c))
         src = unit_text(tu, "min")
-        out = parse_outcome(src, "f.c", ("f.c",))
+        # file names of every shape in the coordinates: the one given to parse()
+        # and one set by a linemarker in front of the text
+        fname = c.choice(FILE_NAMES)
+        case = ("unit", tu)
+        if fname != "f.c" or c.chance(0.3):
+            if c.chance(0.6):
+                src = '# %d "%s"\n' % (c.int(1, 99), c.choice(MARKER_NAMES)) + src
+            case = ("named", src, fname)
+            st.classes["file_name_other_than_f.c"] += 1
+        out = parse_outcome(src, fname, (fname,) + tuple(MARKER_NAMES))
         st.evaluations += 1
         if out[0] != "ast":
             st.classes["rejected"] += 1
             return
-        check_ast(out[1], src, ("unit", tu))
+        check_ast(out[1], src, case)
         if nontrivial(out[1]):
             st.nt(src)
         st.classes["asts"] += 1
@@ -245,6 +259,7 @@ def replay(subcheck, case):
         src = unit_text(M.freshen(case[1]), "min")
     else:
         src = case[1]
-    out = parse_outcome(src, "f.c", ("f.c",))
+    fname = case[2] if case[0] == "named" else "f.c"
+    out = parse_outcome(src, fname, (fname,))
     if out[0] == "ast":
         check_ast(out[1], src, case)
